@@ -32,7 +32,7 @@ def classes():
     """module-level classes so that pickle can find them"""
     global _classes
     if _classes is None:
-        from sqlobject import SQLObject, IntCol
+        from sqlobject import SQLObject, IntCol, MultipleJoin
 
         class VOrmEager(SQLObject):
             a = IntCol(default=None)
@@ -57,6 +57,11 @@ def classes():
             c.__qualname__ = c.__name__
             globals()[c.__name__] = c
         _classes = [VOrmEager, VOrmLazy, VOrmNoCV]
+        # access paths through another object (C04): obj.jEager / jLazy / jNoCV = the rows of that class whose column a
+        # holds obj.id (joins add no column, no statement and no cascade to the classes)
+        for c in _classes:
+            for other in _classes:
+                c.sqlmeta.addJoin(MultipleJoin(other.__name__, joinColumn='a', joinMethodName='j' + other.__name__[4:]))
     return _classes
 
 
@@ -84,6 +89,9 @@ def abstract_sql(q):
     m = re.match(r'SELECT id, a, u, n FROM (\w+) WHERE \(\(\w+\.u\) = \((-?\d+)\)\)$', q)
     if m:
         return ['selectalt', TABLES.index(m.group(1))]
+    m = re.match(r'SELECT id FROM (\w+) WHERE a = \((-?\d+)\)$', q)
+    if m:
+        return ['select', TABLES.index(m.group(1))]      # _SO_selectJoin
     m = re.match(r'SELECT \w+\.id, .* FROM (\w+) WHERE', q)
     if m:
         return ['select', TABLES.index(m.group(1))]
@@ -146,7 +154,7 @@ def run_history(case):
 
     def do(op):
         t = op[0]
-        if t in ('create', 'get', 'byalt', 'unpickle') or (t == 'select' and op[3] is not None):
+        if t in ('create', 'get', 'byalt', 'unpickle', 'fk') or (t in ('select', 'join') and op[3] is not None):
             n = len(slots)
             try:
                 return do2(op)
@@ -189,10 +197,26 @@ def run_history(case):
             tok = token(o)
             slots.append(o)
             return ['obj', o.id, tok]
-        if t in ('read', 'setattr', 'set', 'syncupdate', 'sync', 'expire', 'destroy', 'pickle'):
+        if t in ('read', 'setattr', 'set', 'syncupdate', 'sync', 'expire', 'destroy', 'pickle', 'fk', 'join'):
             o = slots[op[1]] if op[1] < len(slots) else None
             if o is None:
                 raise IndexError('bad handle')
+            if t == 'fk':
+                # what the getter of a ForeignKey column does: lambda self: self._SO_foreignKey(self.<name>ID, joinClass)
+                r = o._SO_foreignKey(o.a, cls[op[2]])
+                if r is None:
+                    slots.append(None)
+                    return ['none']
+                tok = token(r)
+                slots.append(r)
+                return ['obj', r.id, tok]
+            if t == 'join':
+                objs = getattr(o, 'j' + cls[op[2]].__name__[4:])
+                res = [[x.id, token(x)] for x in objs]
+                if op[3] is not None:
+                    slots.append(objs[op[3]] if op[3] < len(objs) else None)
+                del objs
+                return ['objs', res]
             if t == 'read':
                 return ['val', getattr(o, COLS[op[2]])]
             if t == 'setattr':
@@ -379,6 +403,23 @@ def cop(op):
     raise ValueError(op)
 
 
+def cpath(op):
+    if op[0] == 'fk':
+        return '(PFk %d%%nat %s)' % (op[1], ckind(op[2]))
+    if op[0] == 'join':
+        return '(PJoin %d%%nat %s %s)' % (op[1], ckind(op[2]), 'None' if op[3] is None else '(Some %d%%nat)' % op[3])
+    raise ValueError(op)
+
+
+def cpop(op):
+    """operations of Model/OrmPaths.v: base operations, foreign-key traversal, join accessor"""
+    if op[0] in ('fk', 'join'):
+        return '(PPath %s)' % cpath(op)
+    if op[0] == 'fault' and op[2][0] in ('fk', 'join'):
+        return '(PFaultPath %d%%nat %s)' % (op[1], cpath(op[2]))
+    return '(PBase %s)' % cop(op)
+
+
 def ctok(t):
     return 'None' if t is None else '(Some %d%%nat)' % t
 
@@ -441,6 +482,16 @@ def coq_case(case, obs):
     cfg = case['cfg']
     steps = '; '.join('(%s, %s)' % (cop(op), cobs(o)) for op, o in zip(case['ops'], obs['steps']))
     return '{| c_cfg := {| doCache := %s; cullFreq := %d; cullFrac := %d |}; c_steps := [%s] |}' % (
+        'true' if cfg['cache'] else 'false', cfg['freq'], cfg['frac'], steps)
+
+
+COQ_HEADER_PATHS = COQ_HEADER + ' From Model Require Import OrmPaths. From Corr Require Import OrmPaths.'
+
+
+def coq_pcase(case, obs):
+    cfg = case['cfg']
+    steps = '; '.join('(%s, %s)' % (cpop(op), cobs(o)) for op, o in zip(case['ops'], obs['steps']))
+    return '{| pc_cfg := {| doCache := %s; cullFreq := %d; cullFrac := %d |}; pc_steps := [%s] |}' % (
         'true' if cfg['cache'] else 'false', cfg['freq'], cfg['frac'], steps)
 
 
@@ -511,10 +562,14 @@ def gen_history(rng, profile, length):
             return ['select', k, rng.choice([None, None, 0, 1, 2]), keep]
         if t == 'byalt':
             return ['byalt', k, rng.randint(100, max(100, nextu[0]))]
-        if t in ('read', 'setattr', 'set', 'syncupdate', 'sync', 'expire', 'destroy', 'drop', 'pickle'):
+        if t in ('read', 'setattr', 'set', 'syncupdate', 'sync', 'expire', 'destroy', 'drop', 'pickle', 'fk', 'join'):
             if not live:
                 return ['get', k, rng.randint(1, nextid[k] + 1)]
             h = rng.choice(live) if rng.random() < 0.95 else rng.randint(0, nslots)
+            if t == 'fk':
+                return ['fk', h, k]
+            if t == 'join':
+                return ['join', h, k, rng.randint(0, 2) if rng.random() < 0.5 else None]
             if t == 'read':
                 return ['read', h, rng.randint(0, 2)]
             if t == 'setattr':
@@ -553,13 +608,13 @@ def gen_history(rng, profile, length):
         # bookkeeping guesses (only steer generation; the truth is what the implementation does)
         core = op[2] if op[0] == 'fault' else op
         t = core[0]
-        if t in ('create', 'get', 'byalt', 'unpickle'):
+        if t in ('create', 'get', 'byalt', 'unpickle', 'fk'):
             live.append(nslots)
             nslots += 1
             if t == 'create':
                 rows[core[1]].append(nextid[core[1]])
                 nextid[core[1]] += 1
-        elif t == 'select' and core[3] is not None:
+        elif t in ('select', 'join') and core[3] is not None:
             live.append(nslots)
             nslots += 1
         elif t == 'drop' and core[1] in live:
@@ -638,7 +693,7 @@ def identities(case, obs):
     for op, st in zip(case['ops'], obs['steps']):
         core = core_op(op)
         t = core[0]
-        creates = t in ('create', 'get', 'byalt', 'unpickle') or (t == 'select' and core[3] is not None)
+        creates = t in ('create', 'get', 'byalt', 'unpickle', 'fk') or (t in ('select', 'join') and core[3] is not None)
         if not creates:
             continue
         n = len(ident)
